@@ -157,6 +157,10 @@ func genUpdate(r *Rng, pf Profile, l, nb int) Op {
 	if r.Chance(0.12) {
 		op.M = Pick(r, "garbage_root", "ext", "stale_wit")
 		op.MV = r.Uint64()
+	} else if r.Chance(0.05) {
+		// requests of every class may come with as many signature lines as the note format allows: what cannot be cosigned
+		// must still be answered by the rule that applies
+		op.M, op.MV = "xsig_unknown", uint64(r.Range(96, 100))
 	}
 	return op
 }
